@@ -167,7 +167,11 @@ def run_walker(root, walker, wseed, allow_xdev=True):
                 return ('ret', (r, calls)), perm.yields
             if walker == 'scan':
                 return ('ret', m.load_unregistered_manifests('')), perm.yields
-            m.update_entries_for_directory('')
+            if walker == 'update-inc':
+                # incremental update: nothing is newer than last_mtime
+                m.update_entries_for_directory('', last_mtime=4000000000.0)
+            else:
+                m.update_entries_for_directory('')
             return ('ret', 'updated'), perm.yields
     except Exception as exc:
         return ('exc', exc), perm.yields
@@ -297,7 +301,7 @@ def exec_xdev(ctx, case):
         listed = [f for f in files
                   if case['listed'] or not mtext.comp_prefix(f, lp)]
         write_manifest(root, listed, ignores)
-        for walker in WALKERS + ['create']:
+        for walker in WALKERS + ['update-inc', 'create']:
             if walker == 'create' and case['ignored']:
                 continue        # nothing can be IGNOREd before a Manifest exists
             for ax in (False, True):
